@@ -246,6 +246,28 @@ def run(ctx, res):
     res.check(ok, "C03.R3", site(seek, "needs_index_seek->index-seek"), "seek re-positions the index iterator when the table says so",
               "reader_iter_seek does not seek the index iterator on needs_index_seek", seek.loc(seek.body))
 
+    # exhaustion state: the seek shortcut (start_ri == left) relies on an exhausted iterator having restart_index == num_restarts
+    for fn in ("parse_next_key", "block_iter_prev"):
+        g = prog.need(fn, "mtbl/block.c")
+        res.saw(g)
+        evx = APE.run(prog, cg, g, bound=APE.BOUND)
+        seen = 0
+        for p in evx.paths:
+            if p.end != "exit":
+                continue
+            st = {}
+            for e in p.events:
+                if e.kind == "store" and e.a.startswith("bi->"):
+                    st[re.sub(r"@\d+", "", e.a)] = re.sub(r"@\d+", "", APE.vstr(e.b))
+            if st.get("bi->current") == "bi->restarts":
+                seen += 1
+                res.check(st.get("bi->restart_index") == "bi->num_restarts", "C03.R4", site(g, "exhausted-state"),
+                          "an exhausted block iterator has current = restarts and restart_index = num_restarts",
+                          "%s marks the iterator exhausted (current := restarts) but leaves restart_index at a live run: a following seek to the stale last key "
+                          "takes the current-entry shortcut and stays exhausted" % fn, g.loc(g.body), p.describe(g))
+        if seen == 0:
+            raise BrokenAnalysis("%s: exhaustion path not recognised" % fn)
+
     # ---- R4 ----------------------------------------------------------------------------------
     blockseek.check(ctx, res, "C03.R4s", "C03.R4")
     res.floor("C03.R4", 5)
@@ -272,3 +294,4 @@ def _callee_couples(prog, cg, callee, pidx):
                 return False
             found = True
     return found
+
